@@ -51,6 +51,17 @@ def live_states():
     return out
 
 
+class _LiveComm(object):
+    def __init__(self):
+        self.sent = []
+
+    def isStreaming(self):
+        return False
+
+    def sendCommand(self, command, **kwargs):
+        self.sent.append(command)
+
+
 def live_hooks(handlers, line):
     """What the live queuing hooks would send for this line (OctoPrint hands them the command with comment, line ending
     and surrounding blanks removed; lines that are neither G-code nor @-commands are sent as they are)."""
@@ -65,9 +76,9 @@ def live_hooks(handlers, line):
         return [str(x[0] if isinstance(x, tuple) else x) for x in r if (x[0] if isinstance(x, tuple) else x) is not None]
     if p.text.startswith("@"):
         pieces = p.text.split(None, 1)
-        comm = StreamProcessorComm()
+        comm = _LiveComm()      # an independent stand-in for OctoPrint's comm object (printing from the host: not streaming)
         if handlers.handleAtCommand(comm, pieces[0][1:], "" if len(pieces) < 2 else pieces[1]):
-            return list(comm.bufferedCommands)
+            return list(comm.sent)
         return "unchanged"
     return "unchanged"
 
